@@ -22,7 +22,7 @@ def c05_classify(c, i):
 
 CFG = {
     "manifest": {
-        "text": "Proof: Lean theorems (Props/C05.lean): held <= capacity in every reachable state of both pool models (lm_held_le_capacity, std_held_le_capacity), the free1/free2 slot protocol keeps every slot in one of Free/Taken/Out/Returning and every event in exactly one place (slot_exclusive), readers block rather than drop (readers_block_not_drop), every path after eventPool.get returns the event exactly once and the idle pipeline holds none (finalize_once, idle_zero). Tie: gated and free-running schedules on both real pools, and whole-pipeline runs whose in-use count returns to 0.",
+        "text": "Proof: Lean theorems (Props/C05.lean): lm_held_le_capacity and std_held_le_capacity (events out of the pool <= capacity in every reachable state of the atomic-step models; the low-memory counter = held + readers between their failed Inc and the Dec), lm_/std_readers_block_not_drop (a reader inside get never returns without an event), slot_exclusive (free1/free2 protocol: every slot Free/Taken/Out/Returning with a unique owner; every event in exactly one slot or with exactly one holder; no nil event taken), finalize_once and idle_zero for the event life cycle after eventPool.get (decode error, refusal, discard/collapse, hold+propagate, commit; child/time-out events never pooled). Tie: gated and free-running schedules on both real pools, and whole-pipeline runs (real Pipeline, harness input/action, devnull output) whose finalize trace and final in-use count are compared with the life-cycle model.",
         "note": "That plugin code outside the modelled paths does not retain *Event after commit is validated by the pipeline runs, not proved.",
         "technique": "Lean 4 proof (inductive invariants over all op lists) + trace replay against the real pools and a real pipeline",
     },
